@@ -282,6 +282,46 @@ class Ctx:
             futs = [ex.submit(self.tlc_trace, module, p, **kw) for p in paths]
             return [f.result() for f in futs]
 
+    def tlc_explore(self, module, prog_path, cfg=None, workers=4, timeout=1500, heap="6g", env=None):
+        """Program exploration (spec/explore/<module>.tla): TLC explores every execution of the
+        exported programs (env PROG) and prints one REJECT record per failed claim.  Returns the
+        TlcResult; rejections get the exported program attached as `program`."""
+        mod = os.path.join(SPEC, "explore", module + ".tla")
+        cfgp = os.path.join(SPEC, "explore", cfg or (module + ".cfg"))
+        prog_path = os.path.abspath(prog_path)
+        e = {"PROG": prog_path}
+        if env:
+            e.update(env)
+        r = run_tlc(mod, cfgp, env=e, workers=workers, heap=heap, timeout=timeout, depth_first=False)
+        if not r.ok:
+            raise ToolError("TLC failed exploring %s with %s:\n%s" % (prog_path, module, tlc_error_summary(r)))
+        progs = None
+        seen = set()
+        uniq = []
+        for rj in r.rejects:
+            key = json.dumps(rj.get("expected", rj), sort_keys=True) if "expected" in rj else json.dumps(
+                {k: v for k, v in rj.items() if k not in ("path", "init", "actual")}, sort_keys=True)
+            if key in seen:
+                continue
+            seen.add(key)
+            if progs is None:
+                with open(prog_path) as f:
+                    progs = json.load(f)["progs"]
+            pi = rj.get("prog")
+            if isinstance(pi, int) and 1 <= pi <= len(progs):
+                rj["program"] = progs[pi - 1]
+            rj["export"] = os.path.relpath(prog_path, ROOT)
+            uniq.append(rj)
+        r.rejects = uniq
+        self.states += r.distinct
+        self.transitions += r.generated
+        return r
+
+    def tlc_explore_many(self, module, paths, parallel=4, **kw):
+        with concurrent.futures.ThreadPoolExecutor(parallel) as ex:
+            futs = [ex.submit(self.tlc_explore, module, p, **kw) for p in paths]
+            return [f.result() for f in futs]
+
     def tlc_mc(self, module, cfg, workers=None, timeout=1800, heap="8g", env=None, key=None, coverage=False):
         """Model-check spec/mc/<module>.tla with cfg.  A failure here is a regression of the
         *specification* (it does not depend on /repo): it is a tool error, not a violation."""
